@@ -398,3 +398,75 @@ theorem normalizeInterCoefRepaired_value {bits b : Nat} {H : Int} (hr0 : HeadRoo
     exact h3
 
 end NormL
+
+namespace NormL
+
+theorem splitOffset_unique {b : Nat} (hb : 1 ≤ b) (off q : Int) (r : Nat) (h : off = q * b + r) (hr : r < b) :
+    splitOffset b off = (r, q) := by
+  obtain ⟨h2, l2⟩ := splitOffset_spec hb off
+  generalize splitOffset b off = s2 at h2 l2 ⊢
+  obtain ⟨r2, q2⟩ := s2
+  simp only at h2 l2 ⊢
+  have hbpos : (0 : Int) < b := by exact_mod_cast hb
+  have key : (q2 - q) * b = (r : Int) - r2 := by rw [h] at h2; linarith
+  have hd : q2 - q = 0 := by
+    by_contra hne
+    rcases lt_or_gt_of_ne hne with h' | h'
+    · have : (q2 - q) * b ≤ -1 * b := mul_le_mul_of_nonneg_right (by omega) (le_of_lt hbpos)
+      omega
+    · have : 1 * (b : Int) ≤ (q2 - q) * b := mul_le_mul_of_nonneg_right (by omega) (le_of_lt hbpos)
+      omega
+  rw [hd] at key
+  have : r2 = r := by omega
+  have : q2 = q := by omega
+  simp [*]
+
+/-- `k + lsh = steps·b` for the right-shift parameters -/
+theorem rshSteps_spec {b : Nat} (hb : 1 ≤ b) (k : Nat) :
+    k + (rshSteps b k).2 = (rshSteps b k).1 * b ∧ (rshSteps b k).2 < b := by
+  unfold rshSteps
+  have hdm := Nat.div_add_mod k b
+  have hlt := Nat.mod_lt k (show b > 0 by omega)
+  have hmul : b * (k / b) = k / b * b := Nat.mul_comm _ _
+  by_cases h0 : k % b = 0
+  · simp only [h0, ne_eq, not_true_eq_false, if_false, Nat.sub_zero, Nat.mod_self]
+    omega
+  · simp only [h0, ne_eq, not_false_eq_true, if_true]
+    have : (b - k % b) % b = b - k % b := Nat.mod_eq_of_lt (by omega)
+    rw [this, Nat.add_mul]
+    omega
+
+/-- **`vec_znx_rsh` (overwrite form) is the same-radix normalisation with offset `−k`** -/
+theorem rshCoef_overwrite_eq {b : Nat} (hb : 1 ≤ b) (k : Nat) (a res : List Int) :
+    rshCoef .overwrite b k a res = normalizeInterCoef 64 b res.length (-(k : Int)) a := by
+  obtain ⟨hs, hl⟩ := rshSteps_spec hb k
+  have hso : splitOffset b (-(k : Int)) = ((rshSteps b k).2, -((rshSteps b k).1 : Int)) := by
+    apply splitOffset_unique hb _ _ _ _ hl
+    have : ((k + (rshSteps b k).2 : Nat) : Int) = (((rshSteps b k).1 * b : Nat) : Int) := by rw [hs]
+    push_cast at this
+    linarith
+  unfold rshCoef normalizeInterCoef
+  rw [hso]
+  simp only [interRanges]
+  generalize (rshSteps b k).1 = steps
+  generalize (rshSteps b k).2 = lsh
+  have e1 : (a.length : Int) - -(steps : Int) = (a.length : Int) + steps := by ring
+  have e2 : (res.length : Int) + -(steps : Int) = (res.length : Int) - steps := by ring
+  rw [neg_neg, e1, e2, clampNat_natCast, clampNat_add, clampNat_neg, clampNat_sub]
+  have m1 : min res.length steps = min steps res.length := Nat.min_comm _ _
+  have m2 : min res.length (a.length + steps) = min (a.length + steps) res.length := Nat.min_comm _ _
+  have m3 : min a.length (res.length - steps) = min (res.length - steps) a.length := Nat.min_comm _ _
+  rw [m1, m2, m3]
+  have hz : min (res.length - steps) a.length - (min (a.length + steps) res.length - min steps res.length) = 0 := by
+    omega
+  rw [hz]
+
+theorem splitOffset_neg_natCast {b : Nat} (hb : 1 ≤ b) (k : Nat) :
+    splitOffset b (-(k : Int)) = ((rshSteps b k).2, -((rshSteps b k).1 : Int)) := by
+  obtain ⟨hs, hl⟩ := rshSteps_spec hb k
+  apply splitOffset_unique hb _ _ _ _ hl
+  have : ((k + (rshSteps b k).2 : Nat) : Int) = (((rshSteps b k).1 * b : Nat) : Int) := by rw [hs]
+  push_cast at this
+  linarith
+
+end NormL
